@@ -157,9 +157,12 @@ Definition bind_kinds (ps : list param) (kinds : list pkind) (kw : list (string 
   let idx := seq 0 (List.length ps) in
   let has_vk := existsb (fun i => pkind_eqb (kind_at kinds i) PVarKw) idx in
   forallb (fun kv =>
-             has_vk ||
-             existsb (fun i => pkind_eqb (kind_at kinds i) PPlain &&
-                               String.eqb (p_name (nth i ps (mkParam "" DEmpty))) (fst kv)) idx) kw &&
+             let named k := existsb (fun i => pkind_eqb (kind_at kinds i) k &&
+                                              String.eqb (p_name (nth i ps (mkParam "" DEmpty))) (fst kv)) idx in
+             (* CPython 3.12's Signature.bind refuses the name of a positional-only parameter
+                as a keyword even when a double-star parameter could absorb it (the call
+                itself would accept that) *)
+             named PPlain || (has_vk && negb (named PPosOnly))) kw &&
   forallb (fun i =>
              let p := nth i ps (mkParam "" DEmpty) in
              match kind_at kinds i, p_default p with
